@@ -134,13 +134,19 @@ def run(ctx):
             evaluations += prep.get("evaluations", 0)
     cov = {"evaluations": evaluations, "programs": scen, "distinct_nontrivial": distinct,
            "arith_evaluations": arith_evals, "full_evaluations": full_evals, "pcs_entry_points": pcs_cov,
+           "cap_heights": {k: n for k, n in hist.items() if "cap" in k},
            "rule": "scenario = FRI parameter set (blow-up 1-3, queries 1-3, max_log_arity 1-4 giving mixed arity schedules incl. the empty "
                    "one (every matrix of height one: 1 in 24 generated scenarios + 4 corpus scenarios), final poly "
                    "length 1-8, PoW bits 0-4) x 1-3 batches of 1-3 matrices of mixed heights/widths, opening points shared or not; the "
                    "real prover makes an honest proof; each case is that proof or one single-element / single-shape alteration of it. "
                    "arith cases go to the real native verify_fri (mock MMCS, scripted challenger), to verify_fri_circuit(None)+runner and to "
                    "the Lean models; full cases go to TwoAdicFriPcs::verify and to get_challenges_circuit+verify_circuit (Poseidon2 MMCS, "
-                   "in-circuit challenger, PoW, index sampling). distinct = distinct arith case lines (every case has a real proof, so all "
+                   "in-circuit challenger, PoW, index sampling); full scenarios draw the Merkle cap height of the input MMCS and of the "
+                   "commit-phase MMCS independently from 0-4 (incl. exactly the height of the shortest tree: empty Merkle path, leaf hash "
+                   "against the selected cap entry; seed C07-d) and are judged a second time in fixch mode: real verify_fri with the real "
+                   "MMCSs and the honest transcript's challenges scripted vs verify_fri_circuit(Some(perm)) with the same challenges as "
+                   "public inputs, on alterations of every cap (entry addressed by a query / by no query), of sibling rows at the phase "
+                   "whose folded height equals / exceeds the cap height, Merkle digests, opened values, final poly, claims. distinct = distinct arith case lines (every case has a real proof, so all "
                    "are non-trivial); full cases are counted in evaluations only",
            "samples": samples[:3], "input_distribution": hist,
            "traces_validated_against_impl": blocks, "disagreements_checked": disagreements,
@@ -184,6 +190,7 @@ CHECK = {
         "arith mode calls verify_fri_circuit directly; the two height bounds of verify_circuit (31 bits, two-adicity) are re-stated in the harness (build_arith) and in the model; the real verify_circuit is exercised in full mode (full shape kind 2)",
         "general-arity fold: proved as 'sequential arity-2 folds of the evaluations of any polynomial of degree < 2^k on the bit-reversed coset give its value at beta' (fold_general_eq); equality with native lagrange_interpolate_at's barycentric formula is proved for arity 2 and 4 (fold_arity2_eq, fold_arity4_eq) and rests on the correspondence for arity >= 8",
         "log_blowup >= 1 (for log_folded_height = 0 the circuit skips the commit-phase MMCS check; unreachable for valid parameters)",
+        "Merkle caps (cap height > 0) are outside the Lean arithmetic model; native = circuit for them is judged on the real code (full and fixch modes, cap heights 0-4)",
     ],
 }
 
